@@ -287,20 +287,31 @@ class Analyzer:
         return sorted(cs)
 
     def _alias_locals(self):
-        """single-definition pointer locals defined by a pure path expression: var id -> defining expr id"""
+        """single-definition pointer locals defined by a pure path expression: var id -> defining expr id.
+        The definition is the declaration's initialiser or the only assignment.  A path through a subscript with a local
+        index (`mode=ci->mode_param[i]`) qualifies when every use of the pointer sees the index unchanged since the
+        definition (no path definition -> store to the index or to the slot -> use that does not pass the definition again)"""
         F = self.F
-        defs, cnt = {}, {}
+        defs, cnt, defnode = {}, {}, {}
+        self.alias_assign = set()
         for n in F.pos:
             nd = F.ex[n]
             if nd['k'] == 'decl':
                 for v in nd['vars']:
                     if 'id' in v and v.get('init'):
                         defs[v['id']] = v['init']
+                        defnode[v['id']] = n
                         cnt[v['id']] = cnt.get(v['id'], 0) + 1
             elif nd['k'] == 'assign':
                 l = F.ex[F.strip_casts(nd['c'][0])]
                 if l['k'] == 'ref' and l['decl']['kind'] in ('var', 'param'):
-                    cnt[l['decl']['id']] = cnt.get(l['decl']['id'], 0) + 2
+                    vid = l['decl']['id']
+                    if nd['op'] == '=' and l['decl']['kind'] == 'var' and F.sparent.get(n) is None:
+                        cnt[vid] = cnt.get(vid, 0) + 1
+                        defs.setdefault(vid, nd['c'][1]) if cnt[vid] == 1 else None
+                        defnode[vid] = n
+                    else:
+                        cnt[vid] = cnt.get(vid, 0) + 2
             elif nd['k'] == 'un' and nd['op'] in ('&', 'pre++', 'pre--', 'post++', 'post--'):
                 l = F.ex[F.strip_casts(nd['c'][0])]
                 if l['k'] == 'ref' and l['decl']['kind'] in ('var', 'param'):
@@ -312,9 +323,48 @@ class Analyzer:
             t = F.vars.get(v, {}).get('t', '')
             if not t.endswith('*'):
                 continue
-            if self._pure_path(d):
+            dn = defnode[v]
+            by_assign = F.ex[dn]['k'] == 'assign'
+            if self._pure_path(d) and not by_assign:
                 out[v] = d
+                continue
+            idx = set()
+            if not self._pure_path(d, idxvars=idx):
+                continue
+            if self._alias_stable(v, d, dn, idx):
+                out[v] = d
+                if by_assign:
+                    self.alias_assign.add(dn)
         return out
+
+    def _alias_stable(self, v, d, dn, idx):
+        """every use of pointer local v is dominated by its definition dn and sees the index variables `idx` and the slot
+        the path names unchanged since"""
+        F = self.F
+        slot = F.s(F.strip_casts(d))
+
+        def mod(n):
+            x = F.ex[n]
+            if x['k'] == 'assign' or (x['k'] == 'un' and x['op'] in ('pre++', 'pre--', 'post++', 'post--')):
+                l = F.ex[F.strip_casts(x['c'][0])]
+                if l['k'] == 'ref' and l['decl'].get('id') in idx:
+                    return True
+                if n != dn and F.s(F.strip_casts(x['c'][0])) == slot:
+                    return True
+            return False
+        mods = [n for n in F.pos if mod(n)]
+        uses = [n for n in F.pos if F.ex[n]['k'] == 'ref' and F.ex[n]['decl'].get('id') == v
+                and not (F.ex[dn]['k'] == 'assign' and F.strip_casts(F.ex[dn]['c'][0]) == n)]
+        for u in uses:
+            if not cfg.pos_dominates(F, dn, u):
+                return False
+        for m in mods:
+            # is m reachable from the definition, and a use reachable from m, without passing the definition again?
+            if cfg.search(F, F.pos[dn], lambda n: n == m, lambda n: n == dn) is None:
+                continue
+            if cfg.search(F, F.pos[m], lambda n: n in uses, lambda n: n == dn) is not None:
+                return False
+        return True
 
     def _pure_defs(self):
         """integer locals with exactly one definition that is pure arithmetic over other locals/parameters:
@@ -357,30 +407,36 @@ class Analyzer:
                 out[v] = (d, deps)
         return out
 
-    def _pure_path(self, e, depth=0):
+    def _pure_path(self, e, depth=0, idxvars=None):
         nd = self.ex[e]
         k = nd['k']
         if k == 'cast':
-            return self._pure_path(nd['c'][0], depth)
+            return self._pure_path(nd['c'][0], depth, idxvars)
         if k == 'ref':
             return nd['decl']['kind'] in ('var', 'param', 'global')
         if k == 'member':
-            return self._pure_path(nd['c'][0], depth + 1)
+            return self._pure_path(nd['c'][0], depth + 1, idxvars)
         if k == 'cond':
             # `vb ? vb->vd : 0` idiom: path of the non-null arm
             a, b = nd['c'][1], nd['c'][2]
             za = self.ex[self.F.strip_casts(a)]
             zb = self.ex[self.F.strip_casts(b)]
             if zb['k'] == 'int' and zb['v'] == 0:
-                return self._pure_path(a, depth)
+                return self._pure_path(a, depth, idxvars)
             if za['k'] == 'int' and za['v'] == 0:
-                return self._pure_path(b, depth)
+                return self._pure_path(b, depth, idxvars)
             return False
         if k == 'un' and nd['op'] == '&':
-            return self._pure_path(nd['c'][0], depth + 1)
+            return self._pure_path(nd['c'][0], depth + 1, idxvars)
         if k == 'sub':
             i = self.ex[self.F.strip_casts(nd['c'][1])]
-            return i['k'] == 'int' and self._pure_path(nd['c'][0], depth + 1)
+            if i['k'] == 'int':
+                return self._pure_path(nd['c'][0], depth + 1, idxvars)
+            if idxvars is not None and i['k'] == 'ref' and i['decl']['kind'] in ('var', 'param') and \
+                    int_type_range(i.get('t', '') or self.F.vars.get(i['decl'].get('id'), {}).get('t', '')):
+                idxvars.add(i['decl']['id'])
+                return self._pure_path(nd['c'][0], depth + 1, idxvars)
+            return False
         return False
 
     # -- accumulator lemma -------------------------------------------------------------------------
@@ -1032,6 +1088,8 @@ class Analyzer:
             return r
         if k == 'assign':
             op = nd['op']
+            if e in self.alias_assign:
+                return self.ev(env, c[1])
             rhs = self.ev(env, c[1])
             if op != '=':
                 lhs = self.ev(env, c[0])
@@ -1187,6 +1245,13 @@ class Analyzer:
         return V(0, 1)
 
     def arith(self, op, a, b, nd=None):
+        r = self._arith0(op, a, b, nd)
+        if op in ('+', '-', '*') and isinstance(r, V) and r.tag is None and not r.is_bottom() and \
+                ('strlen' in (a.tag, b.tag)) and all(x.tag == 'strlen' or x.const() is not None for x in (a, b)):
+            r = r.copy(tag='strlen')
+        return r
+
+    def _arith0(self, op, a, b, nd=None):
         if a.is_bottom() or b.is_bottom():
             return BOT
         ca, cb = a.const(), b.const()
@@ -1438,7 +1503,8 @@ class Analyzer:
         if name in ('free',):
             return TOP
         if name in ('strlen',):
-            return V(0, 2 ** 63 - 1)
+            # provenance tag: a length of a caller-supplied C string (kept through +, -, * with constants and other lengths)
+            return V(0, 2 ** 63 - 1, tag='strlen')
         if name in ('abs', 'labs'):
             a = avals[0]
             return V(0, max(abs(a.lo), abs(a.hi)))
